@@ -592,11 +592,27 @@ func buildDuty(ctx context.Context, pl *Plan, rp *RunPlan, slot uint64) *atteste
 				ValidatorCommitteeIndex: e.Pos,
 			})
 		}
+		// as in a node's answer for an epoch: the same committee numbers occur at the other slots too, with
+		// other validators and committees of slightly different lengths (the duty of this slot must not notice)
+		for i, e := range rp.Entries {
+			for _, other := range []uint64{slot + 1, slot + 2} {
+				in = append(in, &apiv1.AttesterDuty{
+					PubKey: env.PubKey(pl.Vals[e.V].Key), Slot: phase0.Slot(other), ValidatorIndex: phase0.ValidatorIndex(900000 + 10*i + int(other-slot)),
+					CommitteeIndex: phase0.CommitteeIndex(e.Committee), CommitteeLength: rp.Sizes[e.Committee] + 7*(other-slot), CommitteesAtSlot: 4,
+					ValidatorCommitteeIndex: 0,
+				})
+			}
+		}
 		duties, err := attester.MergeDuties(ctx, in)
-		if err != nil || len(duties) != 1 {
+		if err != nil {
 			panic(fmt.Sprintf("MergeDuties: %v (%d duties)", err, len(duties)))
 		}
-		return duties[0]
+		for _, d := range duties {
+			if uint64(d.Slot()) == slot {
+				return d
+			}
+		}
+		panic(fmt.Sprintf("MergeDuties: no duty for slot %d among %d", slot, len(duties)))
 	}
 	var vis []phase0.ValidatorIndex
 	var cis []phase0.CommitteeIndex
